@@ -1147,13 +1147,39 @@ def c02(r):
               "of the first day and of the next day (verif hook) and an independent Meeus new-moon instant with Espenak-Meeus Delta-T. TLC checks: "
               "elongation <= 0 <= elongation' (the new moon lies inside the first day, 1645..3000), independent instant on the same civil day unless "
               "within 300 s + Delta-T disagreement of midnight (1929..3000), solstice in month 11 and leap placement / numbering by the rule (sui "
-              "starting 1929..2999; years with a term or new moon within a minute of midnight are not judged). Distinct non-trivial case = distinct lunar month.")
-    r.assumptions += ["'true new moon' is decided relative to the library's own series through the verif export (exact) and to harness/ephem's Meeus ch.49 series (a few seconds to minutes); ICU's Chinese calendar is not consulted in this version",
+              "starting 1929..2999; years with a term or new moon within a minute of midnight are not judged). ICU's Chinese calendar is dumped for every civil "
+              "day 1900..2100 (73 414 days) and compared with Solar.GetLunar. Distinct non-trivial case = distinct lunar month.")
+    r.assumptions += ["'true new moon' is decided relative to the library's own series through the verif export (exact) and to harness/ephem's Meeus ch.49 series (a few seconds to minutes); ICU 72's Chinese calendar (Asia/Shanghai) is compared day by day for 1900..2100, a disagreement being accepted only next to a new moon within 0.13 degree (15 min) of midnight or, for leap labelling, in a year with a term within 10 min of midnight",
                       "events within about a minute of UTC+8 midnight are counted as ambiguous for the leap rule, never as failures"]
     r.build()
     r.mc("MC_LeapRule", "MC_LeapRule")
     ch = r.drive("c02years", maxlines=0)
     r.validate("Trace_Lunar", ch)
+    # second oracle: ICU's Chinese calendar for every civil day 1900..2100 (built by bin/setup when gcc + libicu are present)
+    icudump = os.path.join(os.path.dirname(r.lz), "icudump")
+    if not os.path.exists(icudump):
+        import subprocess as _sp
+        _sp.run(["gcc", "-O1", "-o", icudump, os.path.join(os.path.dirname(os.path.dirname(os.path.abspath(__file__))), "harness", "icu", "icudump.c"), "-licui18n", "-licuuc"],
+                stdout=_sp.DEVNULL, stderr=_sp.DEVNULL)
+    if os.path.exists(icudump):
+        import subprocess as _sp
+        tsv = os.path.join(r.dir, "icu.tsv")
+        with open(tsv, "w") as fh:
+            pr = _sp.run([icudump, "1900", "2100"], stdout=fh, stderr=_sp.PIPE, text=True, timeout=300)
+        if pr.returncode != 0 or os.path.getsize(tsv) < 1000000:
+            raise Infra("icudump failed: %s" % pr.stderr[-500:])
+        chi = r.drive("c02icu", args={"icu": tsv}, maxlines=0)
+        r.validate("Trace_Lunar", chi)
+        r.cov["icu_days_compared"] = sum(len(json.loads(l)["rows"]) for c in chi for l in open(c, encoding="utf-8"))
+        def icumut(e):
+            if len(e["rows"]) < 300 or e["y"] in (1917, 1922, 1954, 1955, 1987, 1999, 2012, 2018, 2027, 2030, 2057, 2070): return False
+            for row in e["rows"][100:200]:
+                row[8] = row[8] % 28 + 1
+            return True
+        r.negctl("Trace_Lunar", chi[:4], {"C02Icu": [(icumut, "C02.icu.")]}, per_kind=1)
+    else:
+        r.assumptions.append("ICU oracle skipped in this run: icudump could not be built (no gcc / libicu headers)")
+        r.cov["icu_days_compared"] = 0
     r.sample_from(ch[:1])
     r.cov["samples"] = [s[:600] for s in r.cov["samples"]]
     n = 0
